@@ -143,6 +143,18 @@ def r1_r2(tree, rep):
     if ok:
         v = expand_flow(uh, gh[0].args[0])
         ok = any(isinstance(x, ast.Call) and dotted(x.func) == "filter" for x in ast.walk(v)) or any(isinstance(x, ast.comprehension) and x.ifs for x in ast.walk(v))
+        if not ok and isinstance(gh[0].args[0], ast.Name):
+            # a list filled by a loop: every append is guarded by the truthiness (or not-None-ness) of the appended value
+            from ..cfg import build as _b, truthy_atom as _ta, none_atom as _na
+            gu = _b(uh, split=True)
+            lname = gh[0].args[0].id
+            apps = [c for c in ast.walk(uh) if isinstance(c, ast.Call) and dotted(c.func) == lname + ".append" and len(c.args) == 1]
+            ok = bool(apps)
+            for c in apps:
+                a = c.args[0]
+                node = gu.call_nodes(lambda x, c=c: x is c)
+                same = lambda e, a=a: ast.dump(e) == ast.dump(a)
+                ok = ok and bool(node) and (not gu.only_when(node, _ta(same), True) or not gu.only_when(node, _na(same), False))
     rep.check("C20.R2", "Manager.use_hints parses every hint and drops the unparseable (None) ones before handing them to the Connector", ok, site(uh, MGR),
               key="C20.R2:Manager.use_hints")
     ah = tree.func(TR, "Common", "add_connection_hints")
